@@ -39,6 +39,13 @@ def run(tier):
                                    "widen": 260 if (i + chk.seed) % 499 == 0 else 0,
                                    "manyprops": (i + chk.seed) % 499 == 1, "metapad": (i // 7) % 11 if i % 5 == 0 else 0, "repeat": 130 if (i + chk.seed) % 499 == 2 else 0},
                    "harness.segments", "replay_segments_case", sample_fn=sample_fn, sample_every=20011)
+    # scale: one interleaved segment larger than any internal batch size (built with struct / NumPy)
+    from ..segments import big_interleaved_check
+    big = big_interleaved_check()
+    chk.count(5, [0x7B16])
+    chk.validated(1)
+    for sig_, b_ in big:
+        chk.violation(sig_, b_)
     # TRACE (code -> spec): the repository's own scenario / data files, parsed by the independent structural parser,
     # are run through the reader model (Trace_Segments.tla) and compared with what TdmsFile.read observed
     from ..segtrace import run_trace
